@@ -489,6 +489,16 @@ def asserted_parameters(rep, idx, rule="C19.21"):
                         n += 1
                         refusals = [x for x in ast.walk(init.node) if isinstance(x, ast.If) and any(isinstance(y, ast.Raise) for y in ast.walk(x)) and
                                     any(isinstance(y, ast.Name) and y.id == q for y in ast.walk(x.test))]
+                        # ... or hands it to a helper of the class / module that raises (self._check_overlaps(shadow_overlaps))
+                        for x in ast.walk(init.node):
+                            if isinstance(x, ast.Call) and any(isinstance(y, ast.Name) and y.id == q for y in list(x.args) + [k.value for k in x.keywords]):
+                                h = None
+                                if isinstance(x.func, ast.Attribute) and isinstance(x.func.value, ast.Name) and x.func.value.id in ("self", "cls"):
+                                    h = idx.lookup_method(f.cls, x.func.attr)
+                                elif isinstance(x.func, ast.Name):
+                                    h = idx.resolve_function(f.module, x.func.id)
+                                if h is not None and h.node is not g.node and any(isinstance(y, ast.Raise) for y in ast.walk(h.node)):
+                                    refusals.append(x)
                         what = f"{f.cls.qual}({q}=...) reaches `assert {ast.unparse(a.test)[:70]}` in {g.qual}"
                         if refusals:
                             rep.ok(rule, init.site, what, f"the constructor refuses on `{q}` first (line {refusals[0].lineno})", nontrivial=False)
